@@ -27,6 +27,11 @@ type c15Case struct {
 	handler  string   // echo-wait | never-read | send1-wait | partial
 	deadline bool     // expiry instead of cancel
 	name     string
+	// point/nth: the instant comes inside the library, at the nth time the
+	// client's HTTP call reaches the named yield point (hook H2); the ops carry a
+	// fallback instant in case the point is not reached that often.
+	point string
+	nth   int
 }
 
 func (c c15Case) key() string {
@@ -97,6 +102,9 @@ func c15Cases(run *ev.Run) []c15Case {
 				add(h2, p, svc.ServerStream, "partial", "inside-blocked-Receive-mid-message", []string{"CALL", "HOOK:R", "R", "CP"}, dl)
 				add(h2, p, svc.ServerStream, "send1-wait", "inside-blocked-Close", []string{"CALL", "HOOK:CP"}, dl)
 				add(h2, p, svc.Unary, "partial", "inside-blocked-call-mid-message", []string{"HOOK:CALL"}, dl)
+				// the receiver is draining a message it has already decided to reject
+				// (declared size above its read limit) when the context ends
+				add(h2, p, svc.ServerStream, "partial", "inside-blocked-Receive-draining-oversize", []string{"CALL", "HOOK:R", "R", "CP"}, dl)
 				// the handler's own context ends (server-side timeout / shutdown) while the
 				// client's is alive; the handler returns ctx.Err()
 				add(h2, p, svc.Unary, "server-side", "handler-context-ends", []string{"CALL"}, dl)
@@ -108,8 +116,55 @@ func c15Cases(run *ev.Run) []c15Case {
 	return out
 }
 
+var c15Points = []string{"write.beforePipe", "closeWrite", "makeRequest.beforeDo", "makeRequest.afterDo", "makeRequest.afterValidate", "read.beforeBody", "closeRead.beforeDiscard", "setError.beforeClosePipe"}
+
+// c15PointCases: the context ends exactly when the library is at one of its
+// internal yield points (between two steps of duplexHTTPCall), which no
+// instant chosen between API calls can reach.
+func c15PointCases(run *ev.Run) []c15Case {
+	var out []c15Case
+	type prog struct {
+		kind    svc.Kind
+		handler string
+		ops     []string
+		h1      bool
+	}
+	progs := []prog{
+		{svc.Bidi, "echo-wait", []string{"S", "R", "S", "R", "CR", "X", "Rall", "CP"}, false},
+		{svc.Bidi, "send1-wait", []string{"S", "R", "HOOK:CP"}, false},
+		{svc.ClientStream, "recv-wait", []string{"S", "S", "HOOK:CAR"}, true},
+		{svc.ServerStream, "send1-wait", []string{"CALL", "R", "HOOK:R", "R", "CP"}, true},
+		{svc.ServerStream, "send1-wait", []string{"CALL", "R", "HOOK:CP"}, true},
+		{svc.Unary, "recv-wait", []string{"HOOK:CALL"}, true},
+	}
+	nths := []int{1, 3}
+	modes := []bool{false}
+	if !run.Quick() {
+		nths = []int{1, 2, 3}
+		modes = []bool{false, true}
+	}
+	for _, p := range svc.Protocols {
+		for pi, pr := range progs {
+			for _, pt := range c15Points {
+				for _, n := range nths {
+					for _, dl := range modes {
+						for _, h2 := range []bool{true, false} {
+							if !h2 && (!pr.h1 || run.Quick()) {
+								continue
+							}
+							out = append(out, c15Case{http2: h2, proto: p, kind: pr.kind, ops: pr.ops, handler: pr.handler, deadline: dl,
+								name: fmt.Sprintf("prog%d-at-%s-%d", pi, pt, n), point: pt, nth: n})
+						}
+					}
+				}
+			}
+		}
+	}
+	return out
+}
+
 func c15(run *ev.Run) int {
-	run.SetRule("instants = cancellation or deadline expiry before every operation of a bidi base program, before/between/after the operations of the typed unary, client-stream and server-stream APIs, and - triggered from a second goroutine once the operation has been blocked for 60 ms - inside a blocked Send (peer not reading), Receive (peer waiting; also mid-message with only part of an envelope delivered), CloseAndReceive, unary call and CloseResponse; x 3 protocols x HTTP/1.1 + HTTP/2 x {cancel, deadline}; handlers block on their own ctx.Done() so they are still running at the instant; oracle: every operation failing after the instant has code canceled / deadline_exceeded (Send may return an error wrapping io.EOF), Receive never ends cleanly, unary never succeeds, handler context done (HTTP/2), every op returns (watchdog); distinct by (HTTP version, protocol, kind, instant, mode)")
+	run.SetRule("instants = cancellation or deadline expiry before every operation of a bidi base program, before/between/after the operations of the typed unary, client-stream and server-stream APIs, and - triggered from a second goroutine once the operation has been blocked for 60 ms - inside a blocked Send (peer not reading), Receive (peer waiting; also mid-message with only part of an envelope delivered, and while draining a message above the read limit), CloseAndReceive, unary call and CloseResponse; and inside the library: at the n-th time (n=1, thorough 1..3) the HTTP call reaches each of its 8 instrumented yield points (before the pipe write, closing the write side, before/after the HTTP round trip, after response validation, before a body read, before the drain in CloseResponse, before SetError closes the pipe), one case at a time; x 3 protocols x HTTP/1.1 + HTTP/2 x {cancel, deadline}; handlers block on their own ctx.Done() so they are still running at the instant; oracle: every operation failing after the instant has code canceled / deadline_exceeded (Send may return an error wrapping io.EOF), Receive never ends cleanly, unary never succeeds, handler context done (HTTP/2), every op returns (watchdog); distinct by (HTTP version, protocol, kind, instant, mode)")
 	run.Assume("on HTTP/1.1 net/http propagates a client disconnect to the handler context only after the request body was read; the handler-context clause is enforced on HTTP/2 and counted when observed on HTTP/1.1")
 	reg := svc.NewRegistry()
 	hs := svc.Handlers(reg)
@@ -163,8 +218,15 @@ func c15(run *ev.Run) int {
 		atomic.AddInt64(&total, 1)
 		c15Run(run, srv, c)
 	})
+	// instants inside the library: one case at a time (the yield hook is global)
+	for _, c := range c15PointCases(run) {
+		if !run.Want(c.key()) || run.Saturated() {
+			continue
+		}
+		c15Run(run, srv, c)
+	}
 	serverPanicCheck(run, srv, "c15")
-	return run.Finish("cases", "ops.after_instant.checked", "handler_ctx.checked", "blocked_op.cancelled")
+	return run.Finish("cases", "ops.after_instant.checked", "handler_ctx.checked", "blocked_op.cancelled", "internal_point.instants")
 }
 
 func c15Run(run *ev.Run, srv *svc.Server, c c15Case) {
@@ -190,7 +252,11 @@ func c15Run(run *ev.Run, srv *svc.Server, c c15Case) {
 	defer cs.Tap.Forget(call.ID)
 	if partial {
 		// route to the raw partial-message responder
-		cs = srv.Clients(c.http2, append(svc.ProtoOpts(c.proto, "proto"), connect.WithInterceptors(headerIcept{"X-Verif-Partial", "1"}))...)
+		opts := append(svc.ProtoOpts(c.proto, "proto"), connect.WithInterceptors(headerIcept{"X-Verif-Partial", "1"}))
+		if strings.Contains(c.name, "draining-oversize") {
+			opts = append(opts, connect.WithReadMaxBytes(50)) // the responder declares 100 bytes
+		}
+		cs = srv.Clients(c.http2, opts...)
 	}
 	if serverSide {
 		mode := "cancel"
@@ -243,7 +309,25 @@ func c15Run(run *ev.Run, srv *svc.Server, c c15Case) {
 			}
 		}
 	}
+	if c.point != "" {
+		var hits int32
+		connect.VerifSetYield(func(point string) {
+			if point == c.point && atomic.AddInt32(&hits, 1) == int32(c.nth) {
+				instantMu.Lock()
+				first := instant.IsZero()
+				instantMu.Unlock()
+				if first {
+					run.Count("internal_point.instants", 1)
+					run.Count("internal_point."+c.point, 1)
+				}
+				fire()
+			}
+		})
+	}
 	cr := sd.run(ops)
+	if c.point != "" {
+		connect.VerifSetYield(nil)
+	}
 	run.Count("cases", 1)
 	run.Eval(fmt.Sprintf("h2=%v|%s|%s|%s|%s|deadline=%v", c.http2, c.proto, c.kind, c.handler, c.name, c.deadline))
 	detail := map[string]any{"case": key, "program": c.ops, "ops": describeOps(cr)}
@@ -285,7 +369,7 @@ func c15Run(run *ev.Run, srv *svc.Server, c c15Case) {
 		run.Inconclusive("the chosen operation never blocked, the instant did not occur")
 		return
 	}
-	if hookOp != "" {
+	if hookOp != "" && c.point == "" {
 		run.Count("blocked_op.cancelled", 1)
 	}
 	// judge every operation that started after the instant, and the operation
